@@ -168,6 +168,21 @@ CHECKS["C17"] = dict(engine="E1+E2", cat="model_checking", design="4/C17",
                      note="reference semantics from docstrings / PARAMS descriptions; arithmetic judged only on numeric "
                           "onset/duration cells; compositions after remap_columns(integer_sources) judged for purity only")
 
+CHECKS["C18"] = dict(engine="E3+E2", cat="model_checking", design="4/C18",
+                     technique="exhaustive crash-point and torn-write enumeration of the recorded I/O history of "
+                               "create_backup through an interposed file-system seam; breadth-first exploration of "
+                               "post-backup operation histories against a path->bytes reference model",
+                     text="For 3 data trees x every file selection x {with, without another valid backup} the I/O history of "
+                          "create_backup (makedirs, stepwise copies, record open/writes/close) is recorded, then re-run with a "
+                          "crash before every step and every torn pattern {nothing, half, all} at the record file; a fresh "
+                          "BackupManager must either refuse / not list the backup or list it with every recorded file "
+                          "byte-identical; an earlier backup stays intact; an existing name is never overwritten. All "
+                          "histories of 3 (thorough 4) operations from {modify, delete, delete dir, remodel, restore all, "
+                          "restore task} via the real CLIs are compared file-by-file with the reference after every step; "
+                          "backup copies never change; remodel twice == once.",
+                     note="one interposed call is atomic; power-loss reordering of unsynced data out of scope; task-filtered "
+                          "remodel excluded (the two CLIs key tasks on different file-name forms)")
+
 PENDING_REASON = "check not built yet in this revision (planned in DESIGN.md section 4); not claimed until it is"
 
 
